@@ -258,6 +258,22 @@ func (c *c15Rig) service(kind string) {
 	n0, s0 := len(c.contractor.calls), len(c.sectors.calls)
 	var buf bytes.Buffer
 	var err error
+	// 1 write in 4: the upload stops half-way (or before its first byte) and
+	// the connection drops - nothing was delivered, nothing may be charged
+	aborted := ""
+	if kind == "write" && e.Chance(1, 4) {
+		aborted = []string{"upload-cut-half-way", "upload-never-starts"}[e.Intn(2)]
+		c.hook = func(_ int, id types.Specifier, step int, st simrhp.Step, o proto4.Object, raw []byte) simrhp.Action {
+			if raw == nil || !st.FromRenter {
+				return simrhp.Pass
+			}
+			e.Fault(aborted)
+			if aborted == "upload-never-starts" {
+				return simrhp.Drop
+			}
+			return simrhp.Truncate
+		}
+	}
 	data := bytes.Repeat([]byte{byte(c.nWrites + 1)}, int(length))
 	e.Guard("C15.panic", "RPC "+kind, func() {
 		switch kind {
@@ -274,6 +290,7 @@ func (c *c15Rig) service(kind string) {
 			_, err = rhp4.RPCVerifySector(ctx, c.tr, c.prices, c.token(key), root)
 		}
 	})
+	c.hook = nil
 	waitQuiet()
 	// what did the host do, in which order?
 	debitSeq, serviceSeq := -1, -1
@@ -314,6 +331,9 @@ func (c *c15Rig) service(kind string) {
 		e.Violationf("C15.paid-then-served", kind+":served-first", "%s touched the sector store (event %d) before / without a successful debit (event %d)", kind, serviceSeq, debitSeq)
 	}
 	switch {
+	case aborted != "" && (debited || serviceSeq >= 0 || err == nil):
+		e.Violationf("C15.debit-only-for-service", "write:"+aborted, "a write whose upload was cut (%s): err=%v debited=%v stored=%v", aborted, err, debited, serviceSeq >= 0)
+	case aborted != "":
 	case !sufficient && (debited || serviceSeq >= 0 || buf.Len() > 0 || err == nil):
 		e.Violationf("C15.insufficient-funds", kind, "%s with drawable funds below the cost: err=%v, debited=%v, sector touched=%v, %d bytes delivered", kind, err, debited, serviceSeq >= 0, buf.Len())
 	case missing && (debited || err == nil):
@@ -594,7 +614,7 @@ var _ = sim.NewEnv
 func init() {
 	register(&Prop{
 		ID: "C15", Run: runC15, Quick: 900, Thorough: 8000, Level: "exploration",
-		Rule:        "one run = a formed contract and 8-24 drawn operations over several accounts and pools: fund, replenish accounts / pools (lists with repeated entries and entries already above the target), attach (valid, signed by the account key, by a stranger, expired, flipped signature) and detach (account key, pool key, stranger), several funded pools attached to one account (one request or several), one of them detached again at a drawn position, then verifications until the funds run out, and read / write / verify with the drawable funds (own balance, optionally split with an attached pool, which in half of those cases is attached a second time) at cost-1H, cost and cost+1H and with sectors the host does not store; every Credit*/DebitAccount call and every sector-store call is recorded with the global event number; oracles: credits equal the value the accompanying renter-signed revision moves, debits equal the priced cost (core's functions) and precede the sector access, no debit without service and no service without debit, insufficient funds deliver nothing / store nothing / debit nothing, replenish ends at max(before, target), attach/detach only with the right signature before expiry, and after every step every account and pool balance the host reports equals the model ledger; distinct = abstract trace; all runs non-trivial once a service RPC ran",
+		Rule:        "one run = a formed contract and 8-24 drawn operations over several accounts and pools: fund, replenish accounts / pools (lists with repeated entries and entries already above the target), attach (valid, signed by the account key, by a stranger, expired, flipped signature) and detach (account key, pool key, stranger), several funded pools attached to one account (one request or several), one of them detached again at a drawn position, then verifications until the funds run out, and read / write (1 in 4 with the upload cut half-way or before its first byte: no debit, nothing stored) / verify with the drawable funds (own balance, optionally split with an attached pool, which in half of those cases is attached a second time) at cost-1H, cost and cost+1H and with sectors the host does not store; every Credit*/DebitAccount call and every sector-store call is recorded with the global event number; oracles: credits equal the value the accompanying renter-signed revision moves, debits equal the priced cost (core's functions) and precede the sector access, no debit without service and no service without debit, insufficient funds deliver nothing / store nothing / debit nothing, replenish ends at max(before, target), attach/detach only with the right signature before expiry, and after every step every account and pool balance the host reports equals the model ledger; distinct = abstract trace; all runs non-trivial once a service RPC ran",
 		Real:        []string{"rhp4.Server", "rhp4 RPC* client functions", "testutil.EphemeralContractor (accounts, pools, attachments) / EphemeralSectorStore behind recording wrappers", "wallets, chain.Manager"},
 		Stub:        []string{"transport: simrhp in-memory streams with typed relay", "disk: simdisk.DB"},
 		Assumptions: []string{"no fault is injected into the sector store: a host-side disk error after a legitimate debit is outside the statement"},
